@@ -1,14 +1,9 @@
 (* One VM cycle: the effect of every non-control operation (processor/src/operations/*.rs)
    followed by the clock advance with the cycle-limit check (system/mod.rs: advance_clock). *)
 From Coq Require Import ZArith List Bool Arith Lia.
-From MV Require Import Base.Field Core.Op Core.Rpo Gen.ConstGen Vm.State.
+From MV Require Import Base.Field Core.Op Core.Rpo Gen.ConstGen Vm.State Vm.Pure.
 Import ListNotations.
 Open Scope Z_scope.
-
-Definition is_bin (v : Z) : bool := Z.eqb v 0 || Z.eqb v 1.
-Definition hi32 (x : Z) : Z := Z.shiftr x 32.
-Definition lo32 (x : Z) : Z := Z.land x U32MAX.
-Definition u32max_ok (a : Z) : bool := Z.leb a U32MAX.
 
 Definition gets (s : state) (from n : nat) : list Z := map (get s) (seq from n).
 
@@ -22,136 +17,44 @@ Definition pop_adv_word (s : state) : option (word * list Z) :=
 
 Definition wrap32 (x : Z) : Z := x mod TWO32.
 
+(* overflow addresses after a pure stack change: a right shift records the current clock, a left
+   shift above depth 16 drops the top address (at depth 16 the list is empty) *)
+Definition new_oaddr (s : state) (l' : list Z) : list Z :=
+  match Nat.compare (length l') (length (stk s)) with
+  | Gt => clk s :: oaddr s
+  | Lt => tl (oaddr s)
+  | Datatypes.Eq => oaddr s
+  end.
+
+Definition lift_err (e : perr) (s : state) : err :=
+  match e with
+  | PDivZero => DivideByZero (clk s)
+  | PNotBinary v => NotBinary v
+  | PNotU32 v c => NotU32 v c
+  | PAssert c => AssertFailed c (clk s)
+  | PImpure => Unsupported
+  end.
+
+Definition lift_pure (s : state) (r : pres) : result state :=
+  match r with
+  | POk l' => Ok (set_stack s l' (new_oaddr s l'))
+  | PErr e => Err (lift_err e s) s
+  end.
+
 Definition exec_op (o : op) (s : state) : result state :=
   let g := get s in
   match o with
-  | Noop => Ok s
-  | Assert code =>
-      if Z.eqb (g 0%nat) 1 then Ok (replace_top 1 [] s) else Err (AssertFailed code (clk s)) s
   | FmpAdd => Ok (replace_top 1 [fadd (fmp s) (g 0%nat)] s)
   | FmpUpdate =>
       let nf := fadd (fmp s) (g 0%nat) in
       if (nf <? FMP_MIN) || (3 * FMP_MIN - 1 <? nf) then Err (FmpRange (fmp s) nf) s
       else Ok (set_fmp (replace_top 1 [] s) nf)
-  | SDepth => Ok (replace_top 0 [Z.of_nat (depth s)] s)
   | Caller =>
       if in_syscall s then
         let h := fn_hash s in
         Ok (replace_top 4 [nthw h 3; nthw h 2; nthw h 1; nthw h 0] s)
       else Err CallerNotInSyscall s
   | Clk => Ok (replace_top 0 [clk s] s)
-  | Join | Split | Loop | Call | Dyn | SysCall | Span | End | Repeat | Respan | Halt =>
-      Err Unsupported s
-  | Add => Ok (replace_top 2 [fadd (g 1%nat) (g 0%nat)] s)
-  | Neg => Ok (replace_top 1 [fneg (g 0%nat)] s)
-  | Mul => Ok (replace_top 2 [fmul (g 1%nat) (g 0%nat)] s)
-  | Inv => if Z.eqb (g 0%nat) 0 then Err (DivideByZero (clk s)) s
-           else Ok (replace_top 1 [finv (g 0%nat)] s)
-  | Incr => Ok (replace_top 1 [fadd (g 0%nat) 1] s)
-  | And =>
-      let b := g 0%nat in let a := g 1%nat in
-      if negb (is_bin b) then Err (NotBinary b) s
-      else if negb (is_bin a) then Err (NotBinary a) s
-      else Ok (replace_top 2 [if Z.eqb a 1 && Z.eqb b 1 then 1 else 0] s)
-  | Or =>
-      let b := g 0%nat in let a := g 1%nat in
-      if negb (is_bin b) then Err (NotBinary b) s
-      else if negb (is_bin a) then Err (NotBinary a) s
-      else Ok (replace_top 2 [if Z.eqb a 1 || Z.eqb b 1 then 1 else 0] s)
-  | Not =>
-      let a := g 0%nat in
-      if negb (is_bin a) then Err (NotBinary a) s
-      else Ok (replace_top 1 [fsub 1 a] s)
-  | OpEq => Ok (replace_top 2 [if Z.eqb (g 1%nat) (g 0%nat) then 1 else 0] s)
-  | Eqz => Ok (replace_top 1 [if Z.eqb (g 0%nat) 0 then 1 else 0] s)
-  | Expacc =>
-      let base := g 1%nat in let acc := g 2%nat in let b := g 3%nat in
-      let bit := Z.land b 1 in
-      let value := if Z.eqb bit 1 then base else 1 in
-      Ok (replace_top 4 [bit; fmul base base; fmul acc value; Z.shiftr b 1] s)
-  | Ext2Mul =>
-      let a0 := g 3%nat in let a1 := g 2%nat in let b0 := g 1%nat in let b1 := g 0%nat in
-      Ok (replace_top 4
-            [b1; b0;
-             fsub (fmul (fadd b0 b1) (fadd a1 a0)) (fmul b0 a0);
-             fsub (fmul b0 a0) (fmul (fmul 2 b1) a1)] s)
-  | U32split => let a := g 0%nat in Ok (replace_top 1 [hi32 a; lo32 a] s)
-  | U32assert2 code =>
-      let a := g 0%nat in let b := g 1%nat in
-      if negb (u32max_ok a) then Err (NotU32 a code) s
-      else if negb (u32max_ok b) then Err (NotU32 b code) s
-      else Ok s
-  | U32add => let r := fadd (g 1%nat) (g 0%nat) in Ok (replace_top 2 [hi32 r; lo32 r] s)
-  | U32add3 =>
-      let r := felt_of_u64 (wrap64 (g 2%nat + g 1%nat + g 0%nat)) in
-      Ok (replace_top 3 [hi32 r; lo32 r] s)
-  | U32sub =>
-      let r := wrap64 (g 1%nat - g 0%nat) in
-      Ok (replace_top 2 [Z.shiftr r 63; lo32 r] s)
-  | U32mul =>
-      let r := felt_of_u64 (wrap64 (g 1%nat * g 0%nat)) in
-      Ok (replace_top 2 [hi32 r; lo32 r] s)
-  | U32madd =>
-      let r := felt_of_u64 (wrap64 (g 1%nat * g 0%nat + g 2%nat)) in
-      Ok (replace_top 3 [hi32 r; lo32 r] s)
-  | U32div =>
-      let b := g 0%nat in let a := g 1%nat in
-      if Z.eqb b 0 then Err (DivideByZero (clk s)) s
-      else let q := a / b in Ok (replace_top 2 [a - q * b; q] s)
-  | U32and =>
-      let b := g 0%nat in let a := g 1%nat in
-      if negb (u32max_ok a) then Err (NotU32 a 0) s
-      else if negb (u32max_ok b) then Err (NotU32 b 0) s
-      else Ok (replace_top 2 [Z.land a b] s)
-  | U32xor =>
-      let b := g 0%nat in let a := g 1%nat in
-      if negb (u32max_ok a) then Err (NotU32 a 0) s
-      else if negb (u32max_ok b) then Err (NotU32 b 0) s
-      else Ok (replace_top 2 [Z.lxor a b] s)
-  | Pad => Ok (replace_top 0 [0] s)
-  | Drop => Ok (replace_top 1 [] s)
-  | Dup0 => Ok (replace_top 0 [g 0%nat] s)
-  | Dup1 => Ok (replace_top 0 [g 1%nat] s)
-  | Dup2 => Ok (replace_top 0 [g 2%nat] s)
-  | Dup3 => Ok (replace_top 0 [g 3%nat] s)
-  | Dup4 => Ok (replace_top 0 [g 4%nat] s)
-  | Dup5 => Ok (replace_top 0 [g 5%nat] s)
-  | Dup6 => Ok (replace_top 0 [g 6%nat] s)
-  | Dup7 => Ok (replace_top 0 [g 7%nat] s)
-  | Dup9 => Ok (replace_top 0 [g 9%nat] s)
-  | Dup11 => Ok (replace_top 0 [g 11%nat] s)
-  | Dup13 => Ok (replace_top 0 [g 13%nat] s)
-  | Dup15 => Ok (replace_top 0 [g 15%nat] s)
-  | Swap => Ok (replace_top 2 [g 1%nat; g 0%nat] s)
-  | SwapW => Ok (replace_top 8 (gets s 4 4 ++ gets s 0 4) s)
-  | SwapW2 => Ok (replace_top 12 (gets s 8 4 ++ gets s 4 4 ++ gets s 0 4) s)
-  | SwapW3 => Ok (replace_top 16 (gets s 12 4 ++ gets s 4 4 ++ gets s 8 4 ++ gets s 0 4) s)
-  | SwapDW => Ok (replace_top 16 (gets s 8 8 ++ gets s 0 8) s)
-  | MovUp2 => Ok (replace_top 3 (g 2%nat :: gets s 0 2) s)
-  | MovUp3 => Ok (replace_top 4 (g 3%nat :: gets s 0 3) s)
-  | MovUp4 => Ok (replace_top 5 (g 4%nat :: gets s 0 4) s)
-  | MovUp5 => Ok (replace_top 6 (g 5%nat :: gets s 0 5) s)
-  | MovUp6 => Ok (replace_top 7 (g 6%nat :: gets s 0 6) s)
-  | MovUp7 => Ok (replace_top 8 (g 7%nat :: gets s 0 7) s)
-  | MovUp8 => Ok (replace_top 9 (g 8%nat :: gets s 0 8) s)
-  | MovDn2 => Ok (replace_top 3 (gets s 1 2 ++ [g 0%nat]) s)
-  | MovDn3 => Ok (replace_top 4 (gets s 1 3 ++ [g 0%nat]) s)
-  | MovDn4 => Ok (replace_top 5 (gets s 1 4 ++ [g 0%nat]) s)
-  | MovDn5 => Ok (replace_top 6 (gets s 1 5 ++ [g 0%nat]) s)
-  | MovDn6 => Ok (replace_top 7 (gets s 1 6 ++ [g 0%nat]) s)
-  | MovDn7 => Ok (replace_top 8 (gets s 1 7 ++ [g 0%nat]) s)
-  | MovDn8 => Ok (replace_top 9 (gets s 1 8 ++ [g 0%nat]) s)
-  | CSwap =>
-      let c := g 0%nat in let b := g 1%nat in let a := g 2%nat in
-      if Z.eqb c 0 then Ok (replace_top 3 [b; a] s)
-      else if Z.eqb c 1 then Ok (replace_top 3 [a; b] s)
-      else Err (NotBinary c) s
-  | CSwapW =>
-      let c := g 0%nat in
-      if Z.eqb c 0 then Ok (replace_top 9 (gets s 1 4 ++ gets s 5 4) s)
-      else if Z.eqb c 1 then Ok (replace_top 9 (gets s 5 4 ++ gets s 1 4) s)
-      else Err (NotBinary c) s
-  | Push v => Ok (replace_top 0 [v] s)
   | AdvPop =>
       match adv s with
       | v :: rest => Ok (set_adv (replace_top 0 [v] s) rest)
@@ -203,10 +106,9 @@ Definition exec_op (o : op) (s : state) : result state :=
                              rest1)
              end
            end
-  | HPerm =>
-      let out := rpo_permute (rev (gets s 0 12)) in
-      Ok (replace_top 12 (rev out) s)
+  | Join | Split | Loop | Call | Dyn | SysCall | Span | End | Repeat | Respan | Halt
   | MpVerify | MrUpdate | FriE2F4 | RCombBase => Err Unsupported s
+  | _ => lift_pure s (pure_op o (stk s))
   end.
 
 (* advance_clock: the increment happens first, then the limit test *)
